@@ -35,15 +35,58 @@ func (fc *funcCtx) run(b *ssa.BasicBlock, st *State) {
 					next = b.Succs[i]
 					continue
 				}
-				st2 := st.clone()
-				st2.assume(not(c.T))
-				st2.trace = append(st2.trace, fmt.Sprintf("b%d:F", b.Index))
-				st.assume(c.T)
-				st.trace = append(st.trace, fmt.Sprintf("b%d:T", b.Index))
 				fc.paths++
 				if fc.paths > fc.maxPath {
 					fc.abort("more than %d paths between cut points", fc.maxPath)
 				}
+				if D := fc.ipdom[b]; fc.mergeable(b, D, st) {
+					// run both sides to the join point D and merge what arrives there
+					var arrived []*State
+					fr := stopFrame{D: D, Collector: &arrived, FactsAt: len(st.facts), DeclsAt: len(st.decls)}
+					base := st.clone()
+					for i, pol := range []bool{true, false} {
+						s := st.clone()
+						s.stops = append(s.stops, fr)
+						cnd := c.T
+						if !pol {
+							cnd = not(c.T)
+						}
+						s.assume(cnd)
+						s.pcond = append(s.pcond, cnd)
+						s.trace = append(s.trace, fmt.Sprintf("b%d:%v", b.Index, pol))
+						if b.Succs[i] == D {
+							fc.arrive(b, D, s)
+						} else {
+							fc.goTo(b, b.Succs[i], s)
+						}
+					}
+					if len(arrived) == 0 {
+						return
+					}
+					for _, s := range arrived {
+						s.stops = s.stops[:len(s.stops)-1]
+					}
+					if merged, ok := fc.mergeStates(base, fr.FactsAt, fr.DeclsAt, arrived); ok {
+						*st = *merged
+						st.skipPhi = D
+						next = nil
+						b = D
+						goto continueAtJoin
+					}
+					// not mergeable after all: continue every path on its own
+					for _, s := range arrived {
+						s.skipPhi = D
+						fc.run(D, s)
+					}
+					return
+				}
+				st2 := st.clone()
+				st2.assume(not(c.T))
+				st2.pcond = append(st2.pcond, not(c.T))
+				st2.trace = append(st2.trace, fmt.Sprintf("b%d:F", b.Index))
+				st.assume(c.T)
+				st.pcond = append(st.pcond, c.T)
+				st.trace = append(st.trace, fmt.Sprintf("b%d:T", b.Index))
 				fc.goTo(b, b.Succs[1], st2)
 				next = b.Succs[0]
 			case *ssa.Jump:
@@ -60,15 +103,45 @@ func (fc *funcCtx) run(b *ssa.BasicBlock, st *State) {
 				}
 			}
 		}
+		if st.skipPhi == b {
+			st.skipPhi = nil
+		}
 		if next == nil {
 			return
 		}
-		nb, cont := fc.transfer(b, next, st)
-		if !cont {
+		if n := len(st.stops); n > 0 && st.stops[n-1].D == next {
+			fc.arrive(b, next, st)
 			return
 		}
-		b = nb
+		{
+			nb, cont := fc.transfer(b, next, st)
+			if !cont {
+				return
+			}
+			b = nb
+		}
+		continue
+	continueAtJoin:
 	}
+}
+
+// arrive: the path has reached the join point it is to be merged at. The phis of
+// the join block are resolved with this path's predecessor before merging.
+func (fc *funcCtx) arrive(from, D *ssa.BasicBlock, st *State) {
+	st.prev = from
+	for _, ins := range D.Instrs {
+		phi, ok := ins.(*ssa.Phi)
+		if !ok {
+			break
+		}
+		for i, p := range D.Preds {
+			if p == from {
+				st.regs[phi] = fc.val(st, phi.Edges[i])
+			}
+		}
+	}
+	fr := st.stops[len(st.stops)-1]
+	*fr.Collector = append(*fr.Collector, st)
 }
 
 // decided: is the truth of atom c already fixed by the facts of this path (syntactically)?
@@ -140,7 +213,11 @@ func (fc *funcCtx) transfer(from, to *ssa.BasicBlock, st *State) (*ssa.BasicBloc
 			g := fc.e.cevalBool(inv.E, env)
 			fc.oblige(st, "inv-keep", fmt.Sprintf("loop%d/%s", l.Ordinal, clauseLabel(inv, i)), g, "invariant preserved: "+inv.Src)
 		}
-		if fr.HasVar {
+		if fr.HasVar && fr.AutoVar {
+			if v, ok := st.cells[l.KCell].(Sc); ok {
+				fc.oblige(st, "decreases", fmt.Sprintf("loop%d", l.Ordinal), and(app("<", v.T, fr.VarAt0), app("<=", "0", fr.VarAt0)), "a range over a map visits each of its finitely many keys once")
+			}
+		} else if fr.HasVar {
 			v := fc.e.cevalScalar(spec.Decreases, env)
 			fc.oblige(st, "decreases", fmt.Sprintf("loop%d", l.Ordinal), and(app("<", v.T, fr.VarAt0), app("<=", "0", fr.VarAt0)), "variant decreases and is bounded below: "+spec.DecSrc)
 		} else if fc.con.Terminates {
@@ -150,6 +227,16 @@ func (fc *funcCtx) transfer(from, to *ssa.BasicBlock, st *State) (*ssa.BasicBloc
 	}
 	// entering the loop
 	env := fc.localEnv(st, l)
+	{
+		snap := map[string]Value{}
+		for k, val := range env.vars {
+			snap[k] = val
+		}
+		if st.loopPre == nil {
+			st.loopPre = map[int]map[string]Value{}
+		}
+		st.loopPre[l.Ordinal] = snap
+	}
 	for i, inv := range spec.Invariants {
 		g := fc.e.cevalBool(inv.E, env)
 		fc.oblige(st, "inv-init", fmt.Sprintf("loop%d/%s", l.Ordinal, clauseLabel(inv, i)), g, "invariant holds on entry: "+inv.Src)
@@ -163,6 +250,13 @@ func (fc *funcCtx) transfer(from, to *ssa.BasicBlock, st *State) (*ssa.BasicBloc
 	if spec.Decreases != nil {
 		fr.HasVar = true
 		fr.VarAt0 = fc.e.cevalScalar(spec.Decreases, env).T
+	} else if l.MapIter {
+		if v, ok := st.cells[l.KCell].(Sc); ok {
+			fr.HasVar = true
+			fr.AutoVar = true
+			fr.VarAt0 = v.T
+			st.assume(app("<=", "0", v.T))
+		}
 	}
 	st.loops = append(st.loops, fr)
 	st.trace = append(st.trace, fmt.Sprintf("L%d", l.Ordinal))
@@ -587,6 +681,11 @@ func (fc *funcCtx) exec(st *State, ins ssa.Instruction) (stop bool) {
 	case *ssa.BinOp:
 		st.regs[x] = fc.binop(st, x)
 	case *ssa.Phi:
+		if st.skipPhi == x.Block() {
+			if _, done := st.regs[x]; done {
+				return
+			}
+		}
 		for i, p := range x.Block().Preds {
 			if p == st.prev {
 				st.regs[x] = fc.val(st, x.Edges[i])
@@ -684,6 +783,10 @@ func (fc *funcCtx) exec(st *State, ins ssa.Instruction) (stop bool) {
 		kind := "string"
 		if _, ok := x.X.Type().Underlying().(*types.Map); ok {
 			kind = "map"
+			// a map has finitely many keys: the iterator cell counts those not yet visited
+			rem := st.freshConst("mapremaining", SInt)
+			st.assume(app("<=", "0", rem))
+			st.cells[key] = Sc{rem, SInt}
 		}
 		st.regs[x] = IterV{Key: key, Over: over, Kind: kind}
 	case *ssa.Next:
@@ -1092,6 +1195,10 @@ func (fc *funcCtx) next(st *State, x *ssa.Next) {
 		fc.abort("range over unsupported map")
 	}
 	okc := st.freshConst("more", SBool)
+	if rem, ok := st.cells[it.Key].(Sc); ok {
+		st.assume(implies(okc, app(">", rem.T, "0")))
+		st.cells[it.Key] = Sc{fmt.Sprintf("(ite %s (- %s 1) %s)", okc, rem.T, rem.T), SInt}
+	}
 	ks, _ := scalarSort(mv.KT)
 	k := st.freshConst("key", ks)
 	var v Value
